@@ -68,7 +68,7 @@ func putProc(p *model.Proc) {
 
 // ---- scenario generation ----
 
-var crudOps = []string{"inc", "inc", "fau", "ins", "find", "upd0", "dup"}
+var crudOps = []string{"inc", "inc", "fau", "ins", "find", "upd0", "dup", "bad"}
 
 func genCrud(r *gen.R, sess int) sched.Op {
 	op := sched.Op{Kind: crudOps[r.N(len(crudOps))], Sess: sess}
@@ -197,6 +197,10 @@ func genScenarioKind(r *gen.R, kind string) sched.Scenario {
 				s = append(s, sched.Op{Kind: "ebegin", Lock: lock})
 				if lock {
 					s = append(s, sched.Op{Kind: []string{"ecommit", "eabort"}[r.N(2)]})
+					if r.P(30) {
+						// client misuse: commit the finished transaction again (monitors only: not in the model)
+						s = append(s, sched.Op{Kind: "estale"})
+					}
 				}
 			} else {
 				for k := 1 + r.N(2); k > 0; k-- {
@@ -347,6 +351,16 @@ func schedCaseOf(o *sched.Outcome, stream string) run.Case {
 		c.Impl = `{"aborted":true}`
 		return c
 	}
+	for _, s := range sc.Actors {
+		for _, op := range s {
+			if op.Kind == "estale" {
+				// API misuse outside the model's call vocabulary: monitors only
+				c.Tags = dedup(append(tags, "unmodelled:estale"))
+				c.Impl = `{"unmodelled":"estale"}`
+				return c
+			}
+		}
+	}
 	p := getProc()
 	if p != nil {
 		tr := translate(p, o)
@@ -459,6 +473,14 @@ func corpusScenarios() []sched.Scenario {
 	cf := S("session", 2, false, []sched.Op{o("sstart", 1), o("ins", 1), o("scommit", 1)}, []sched.Op{o("inc", 0)})
 	cf.AllowCancel = true
 	out = append(out, cf, cf)
+	// client misuse: a finished transaction is committed again while others write
+	for i := 0; i < 6; i++ {
+		out = append(out, S("direct", 0, false,
+			[]sched.Op{{Kind: "ebegin", Lock: true}, {Kind: "ecommit"}, {Kind: "estale"}, {Kind: "estale"}},
+			[]sched.Op{o("ins", 0), o("inc", 0)}, []sched.Op{o("inc", 0)}))
+	}
+	// callback errors take useTransaction's deferred Abort
+	out = append(out, S("crud", 0, false, []sched.Op{o("bad", 0), o("inc", 0)}, []sched.Op{o("bad", 0)}))
 	// close in the middle
 	out = append(out, S("close", 1, false, []sched.Op{o("inc", 0), o("inc", 0)}, []sched.Op{{Kind: "close"}}, []sched.Op{o("sstart", 1), o("scommit", 1)}))
 	return out
